@@ -15,7 +15,9 @@ fn any_sequence(allow_empty: bool) -> (RowDatasetVersionSequence, [usize; 3], [u
     while i < 3 {
         vnd::assume(lens[i] <= 3 && (allow_empty || lens[i] >= 1));
         if i < n {
-            runs.push(RowDatasetVersionRun { span: SpanLite { n: lens[i] }, version: vers[i] });
+            let holes: u64 = vnd::any();
+            vnd::assume(holes <= 2);
+            runs.push(RowDatasetVersionRun { span: SpanLite { n: lens[i], start: vnd::any::<u32>() as u64, extent: lens[i] as u64 + if lens[i] >= 2 { holes } else { 0 } }, version: vers[i] });
         }
         i += 1;
     }
